@@ -56,6 +56,7 @@ PURE_METHODS = {"get", "items", "keys", "values", "upper", "lower", "strip", "ls
                 "partition", "rpartition", "startswith", "endswith", "join", "format", "replace", "title",
                 "total_seconds", "isoformat", "index", "count", "zfill", "ljust", "rjust", "center", "capitalize",
                 "splitlines", "isdigit", "isalpha", "encode", "decode", "find", "rfind"}
+CONSUMERS = {"list", "tuple", "set", "frozenset", "dict", "sorted", "sum", "max", "min", "any", "all", "enumerate", "zip", "map", "filter", "next", "iter", "reversed"}
 LOGGER_ROOTS = {"log", "logger", "logging", "LOG", "_log", "_logger"}
 EXTERNAL_ROOTS = ("numpy", "math", "datetime", "re", "string", "collections", "itertools", "functools", "logging", "warnings")
 MAX_INLINE_DEPTH = 4
@@ -1118,6 +1119,13 @@ class FuncGraph:
         for a in list(call.args) + [k.value for k in call.keywords]:
             for c in ast.walk(a):
                 if isinstance(c, (ast.Yield, ast.NamedExpr, ast.Await, ast.YieldFrom)):
+                    return False
+                # building the message may CONSUME an iterator the code goes on to use (wave i / l: a debug trace
+                # `" -> ".join(str(x) for x in steps)` over the generator of conversion steps emptied the conversion loop)
+                if isinstance(c, (ast.GeneratorExp, ast.ListComp, ast.SetComp, ast.DictComp, ast.Starred)):
+                    return False
+                if isinstance(c, ast.Call) and ((isinstance(c.func, ast.Attribute) and c.func.attr == "join") or
+                                                (isinstance(c.func, ast.Name) and c.func.id in CONSUMERS)):
                     return False
                 if isinstance(c, ast.Call):
                     fn = c.func
